@@ -13,7 +13,7 @@ from props import rollercommon as RC
 RULE = (
     "cases = corpus + seeded histories of 4..14 public operations (arithmetic, comparisons, lowest_terms, ==/hash, accumulate, "
     "zero_fill, remove, draw(x), draw(), explode, substitute, order statistics, roll, statistics, format, H(h), H(p), P(p, h), "
-    "n@p, p[i:j], p.h(...), rolls_with_counts, appearances, foreach, r.annotate(...) with truthy and falsy annotations, r.roll(), "
+    "n@p, p[i:j], p.h(...), rolls_with_counts, appearances, foreach, r.annotate(...) with truthy and falsy annotations, rollers / histograms / pools built from a caller's list or dict that is mutated afterwards, r.roll(), "
     "roller arithmetic / selection, item assignment / deletion, rejected calls) on ONE shared population of H / P / R objects; "
     "after EVERY step a full snapshot (outcomes with types and order, counts, total, dice and their order, roller repr incl. "
     "sources and annotation) of EVERY pre-existing object is compared with its snapshot at creation; distinct = distinct history; "
@@ -47,6 +47,7 @@ class World:
         self.model_ops = []
         self.log = []
         self.violations = []
+        self.containers = []
         for d in case["init"]:
             if d[0] == "h":
                 self.add(C.dec_h(d[1]))
@@ -209,6 +210,57 @@ def run_op(w, op):
         return None
     if k == "rop":
         return [lambda: r + 1, lambda: 2 @ r, lambda: r.select(0), lambda: r.filter(lambda o: o.value > 1), lambda: -r, lambda: R.from_sources(r, r)][a[1] % 6]()
+    if k == "fromcontainer":
+        # objects built from a caller's mutable container; "mutinput" later mutates the container
+        from dyce.r import PoolRoller
+
+        which = a[1] % 7
+        if which == 0:
+            c = [r, rs[a[2] % len(rs)] if rs else r]
+            w.containers.append(c)
+            return R.from_sources_iterable(c)
+        if which == 1:
+            c = [r]
+            w.containers.append(c)
+            return PoolRoller(sources=c)
+        if which == 2:
+            c, wl = [r], [0]
+            w.containers += [c, wl]
+            return R.select_from_sources_iterable(wl, c)
+        if which == 3:
+            c = [r, r]
+            w.containers.append(c)
+            return R.filter_from_sources_iterable(lambda o: bool(o.value), c)
+        if which == 4:
+            c = dict(h.items()) or {1: 1}
+            w.containers.append(c)
+            return w.H(c)
+        if which == 5:
+            c = [(o, cnt) for o, cnt in h.items()] or [(1, 1)]
+            w.containers.append(c)
+            return w.H(c)
+        c = [h, h2]
+        w.containers.append(c)
+        return w.P(*c)
+    if k == "mutinput":
+        for c in w.containers:
+            if isinstance(c, dict):
+                for key in list(c)[:1]:
+                    c[key] += 1
+                c[987] = 1
+            elif c and isinstance(c[0], tuple):
+                c[0] = (c[0][0], c[0][1] + 1)
+                c.append((987, 1))
+            elif c and isinstance(c[0], int):
+                c[0] = -1
+                c.append(0)
+            else:
+                c.reverse()
+                if c:
+                    c.append(c[0])
+                    del c[0]
+                    c.append(c[0])
+        return None
     if k == "setitem":
         target = [h, p, r][a[1] % 3]
         try:
@@ -235,7 +287,7 @@ def run_op(w, op):
     raise KeyError(k)
 
 
-OPS = ["drawmap", "drawmap", "bin", "scalar", "cmp", "neg", "lt", "eqhash", "acc", "zfill", "remove", "remove", "draw", "draw_noarg", "explode", "hexplode", "subst", "ostat", "stats", "roll", "alias", "alias", "hofp", "pnew", "pmatmul", "pslice", "pindex", "ph", "prwc", "pop", "foreach", "annotate", "annotate", "annotate", "rroll", "rop", "setitem", "reject", "reject"]
+OPS = ["drawmap", "drawmap", "bin", "scalar", "cmp", "neg", "lt", "eqhash", "acc", "zfill", "remove", "remove", "draw", "draw_noarg", "explode", "hexplode", "subst", "ostat", "stats", "roll", "alias", "alias", "hofp", "pnew", "pmatmul", "pslice", "pindex", "ph", "prwc", "pop", "foreach", "annotate", "annotate", "annotate", "rroll", "rop", "setitem", "reject", "reject", "fromcontainer", "fromcontainer", "mutinput"]
 
 
 def _run(case):
